@@ -94,6 +94,10 @@ pub struct Fiber {
 
   /// Backtrace's instruction pointers used during an unwind
   backtrace_ips: UniqueVector<*const u8, Header>,
+
+  /// The fiber running the module this fiber is importing. While it has
+  /// not completed this fiber must not be resumed
+  importing: Option<Ref<Self>>,
 }
 
 impl Fiber {
@@ -151,6 +155,7 @@ impl Fiber {
       error: None,
       frame: current_frame,
       backtrace_ips: UniqueVector::default(),
+      importing: None,
       stack_top,
     }
   }
@@ -235,6 +240,23 @@ impl Fiber {
   /// Is this fiber running
   pub fn is_running(&self) -> bool {
     matches!(self.state, FiberState::Running | FiberState::Unwinding)
+  }
+
+  /// Mark this fiber as waiting for a module that is executed by another fiber
+  pub fn wait_for_import(&mut self, import_fiber: Ref<Fiber>) {
+    self.importing = Some(import_fiber);
+  }
+
+  /// Can this fiber be resumed. A fiber waiting on an import can only
+  /// be resumed once the module's fiber has completed
+  pub fn can_resume(&mut self) -> bool {
+    match self.importing {
+      Some(import_fiber) if !import_fiber.is_complete() => false,
+      _ => {
+        self.importing = None;
+        true
+      },
+    }
   }
 
   /// Is this fiber pending
@@ -627,6 +649,7 @@ impl Fiber {
       error: None,
       frame: current_frame,
       backtrace_ips: UniqueVector::default(),
+      importing: None,
       stack_top,
     };
 
@@ -917,6 +940,10 @@ impl Trace for Fiber {
     if let Some(fiber) = &self.parent {
       fiber.trace();
     }
+
+    if let Some(fiber) = &self.importing {
+      fiber.trace();
+    }
   }
 
   fn trace_debug(&self, log: &mut dyn std::io::Write) {
@@ -947,6 +974,10 @@ impl Trace for Fiber {
     }
 
     if let Some(fiber) = &self.parent {
+      fiber.trace_debug(log);
+    }
+
+    if let Some(fiber) = &self.importing {
       fiber.trace_debug(log);
     }
   }
